@@ -1515,6 +1515,123 @@ func TestC16FirstUseChild(t *testing.T) {
 }
 
 // =============================================================================================
+// C15: values decoded with newBuf=true do not keep the source buffer reachable
+
+func record15G(c Case15G, info Info15G) {
+	var h uint64
+	if info.NonTrivial() {
+		h = c.Hash()
+	}
+	st := vstat.For("C15")
+	st.Case(info.NonTrivial(), h, func() any { return c }, info.Classes()...)
+	st.AddExtra("liveness_drop_and_collect_experiments", int64(info.Rounds))
+}
+
+// TestC15LivenessExhaustive: every list of 1..2 (thorough 3) items from an alphabet of empty, short and 300-byte byte
+// strings / strings and two numbers, in source allocations of 64 bytes .. 64 KiB (the encoding at the start or behind 16
+// bytes, no / 64 KiB spare capacity), all decoded values kept - and, for the lists of two and more, each one kept alone.
+func TestC15LivenessExhaustive(t *testing.T) {
+	st := vstat.For("C15")
+	shard, shards := vstat.Shard()
+	alphabet := []Item{
+		{K: KBytes}, {K: KString}, {K: KBytes, D: "61"}, {K: KString, D: "c3a9"}, {K: KBytes, L: 300, Seed: 5}, {K: KString, L: 300, Seed: 6},
+		{K: KVar, U: 300}, {K: KU16, U: 7},
+	}
+	depth := vstat.Pick(2, 3)
+	var ran int64
+	idx := 0
+	enum.Lists(len(alphabet), depth, 0, 1, func(l []int) {
+		if len(l) == 0 {
+			return
+		}
+		items := make([]Item, len(l))
+		strs := 0
+		for i, a := range l {
+			items[i] = alphabet[a]
+			if items[i].K == KBytes || items[i].K == KString {
+				strs++
+			}
+		}
+		if strs == 0 {
+			return
+		}
+		keeps := [][]int{nil}
+		if strs > 1 {
+			for i, it := range items {
+				if it.K == KBytes || it.K == KString {
+					keeps = append(keeps, []int{i})
+				}
+			}
+		}
+		for _, fs := range [][2]int{{0, 0}, {16, 0}, {0, 64 << 10}} {
+			for _, keep := range keeps {
+				idx++
+				if idx%shards != shard {
+					continue
+				}
+				c := Case15G{Items: items, Front: fs[0], Slack: fs[1], Keep: keep}
+				info, v := Run15G(c)
+				if v != nil {
+					st.Report(t, "TestC15LivenessExhaustive", c, v)
+				}
+				record15G(c, info)
+				ran++
+			}
+		}
+	})
+	st.SetExhaustive("newBuf_liveness", map[string]any{"alphabet": len(alphabet), "max_items": depth, "cases": ran, "shards": shards})
+}
+
+func genCase15G(t *rapid.T) Case15G {
+	n := rapid.IntRange(1, 8).Draw(t, "items")
+	c := Case15G{}
+	huge := new(bool) // no multi-megabyte values here
+	strs := []int{}
+	for i := 0; i < n; i++ {
+		var it Item
+		switch rapid.IntRange(0, 5).Draw(t, "itemClass") {
+		case 0:
+			it = Item{K: rapid.SampledFrom([]string{KBytes, KString}).Draw(t, "emptyKind")}
+		case 1:
+			it = genItem(t, &huge)
+		default:
+			it = genBytesItem(t, rapid.SampledFrom([]string{KBytes, KString}).Draw(t, "kind"), &huge)
+		}
+		it.NB = false // the flag is not used here: everything is decoded with newBuf=true
+		if it.K == KBytes || it.K == KString {
+			strs = append(strs, i)
+		}
+		c.Items = append(c.Items, it)
+	}
+	if len(strs) == 0 {
+		c.Items = append(c.Items, Item{K: KBytes})
+		strs = append(strs, len(c.Items)-1)
+	}
+	if rapid.IntRange(0, 2).Draw(t, "keepSome") == 0 {
+		for _, i := range strs {
+			if rapid.Bool().Draw(t, "keep") {
+				c.Keep = append(c.Keep, i)
+			}
+		}
+	}
+	c.Front = rapid.SampledFrom([]int{0, 0, 1, 8, 16, 4096}).Draw(t, "front")
+	c.Slack = rapid.SampledFrom([]int{0, 0, 1, 64, 4096, 64 << 10, 1 << 20}).Draw(t, "slack")
+	return c
+}
+
+func TestC15RapidLiveness(t *testing.T) {
+	st := vstat.For("C15")
+	rapid.Check(t, func(t *rapid.T) {
+		c := genCase15G(t)
+		info, v := Run15G(c)
+		if v != nil {
+			st.Report(t, "TestC15RapidLiveness", c, v)
+		}
+		record15G(c, info)
+	})
+}
+
+// =============================================================================================
 // C15: byte strings of 256 MiB and more (5-byte prefix), beyond 1 GiB, 2 GiB and 4 GiB
 
 func record15Z(c Case15Z, info Info15Z) {
@@ -1755,6 +1872,14 @@ func TestReplay(t *testing.T) {
 		info, v := Run15W(c)
 		vstat.For("C15").Report(t, "TestReplay", c, v)
 		record15W(c, info)
+	case strings.Contains(env.Test, "Liveness"):
+		var c Case15G
+		if _, err := vstat.LoadReplay(p, &c); err != nil {
+			t.Fatalf("cannot load %s: %v", p, err)
+		}
+		info, v := Run15G(c)
+		vstat.For("C15").Report(t, "TestReplay", c, v)
+		record15G(c, info)
 	case strings.Contains(env.Test, "HugeSeq"):
 		var c Case15ZS
 		if _, err := vstat.LoadReplay(p, &c); err != nil {
